@@ -26,6 +26,9 @@ TABLE = os.path.join(ROOT, "checks", "lock_sites.json")
 GEN_LEAN = os.path.join(ROOT, "lean", "Rfsm", "Gen", "LockSites.lean")
 GEN_JSON = os.path.join(ROOT, "lean", "Rfsm", "Gen", "lock_sites_resolved.json")
 
+# the instrument itself (feature Verif_Hooks): its internal std mutexes are not platform locks
+NOT_PLATFORM = {"src/verif_sync.rs"}
+
 # the lock classes the Lean side knows (Rfsm.Locks.Cls); a table using another one is rejected
 CLASSES = ["TF", "DF", "Gn", "Gi", "P", "G", "E", "D", "A", "R"]
 
@@ -241,7 +244,10 @@ def inventory():
         for fn in sorted(fns):
             if fn.endswith(".rs"):
                 p = os.path.join(dp, fn)
-                sites += scan_file(p, os.path.relpath(p, REPO))
+                rel = os.path.relpath(p, REPO)
+                if rel in NOT_PLATFORM:
+                    continue
+                sites += scan_file(p, rel)
     return sites
 
 
